@@ -1,8 +1,10 @@
 ------------------------ MODULE MC_SlidingTileSpace ------------------------
 (* The permutation-puzzle laws of SlidingTile over the ENTIRE space of arrangements (C17, with the C04 / C05
    facts that are pure functions of the board).  State = the board only.
-   SpecAll : Init over all (N*N)! arrangements (solvable or not): every law is checked as a state invariant
-             quantifying over the 4 actions, i.e. on every (board, action) pair of the space.
+   SpecAll : explores all (N*N)! arrangements (solvable or not), starting from one representative of each of the
+             two parity classes (the goal, and the goal with tiles 1 and 2 exchanged; postcondition CountedAll
+             confirms that every arrangement was visited): every law is checked as a state invariant quantifying
+             over the 4 actions, i.e. on every (board, action) pair of the space.
    SpecGoal: Init = the goal: the reachable set.  With
                ParityInv (reachable boards are Solvable)            [SpecGoal invariant]
                |reachable| = (N*N)!/2                               [SpecGoal postcondition ReachedHalf]
@@ -17,9 +19,10 @@ vars == <<p>>
 MCCfg2 == [grid_size |-> 2, time_limit |-> 500, reward_fn |-> "dense", generator |-> "random_walk", num_random_moves |-> 0]
 MCCfg3 == [grid_size |-> 3, time_limit |-> 500, reward_fn |-> "dense", generator |-> "random_walk", num_random_moves |-> 0]
 
-AllBoards == { [r \in Idx |-> [c \in Idx |-> f[(r - 1) * N + c] - 1]] : f \in Permutations(1..(N * N)) }
+(* exchange the numbered tiles 1 and 2 wherever they are *)
+SwapTiles12(b) == [r \in Idx |-> [c \in Idx |-> IF b[r][c] = 1 THEN 2 ELSE IF b[r][c] = 2 THEN 1 ELSE b[r][c]]]
 
-InitAll == p \in AllBoards
+InitAll == p \in {Goal, SwapTiles12(Goal)}
 InitGoal == p = Goal
 Next == \E a \in Actions : p' = Move(p, a)       \* any in-spec action, legal or not
 SpecAll == InitAll /\ [][Next]_vars
@@ -27,9 +30,6 @@ SpecGoal == InitGoal /\ [][Next]_vars
 
 RECURSIVE Fact(_)
 Fact(k) == IF k <= 1 THEN 1 ELSE k * Fact(k - 1)
-
-(* exchange the numbered tiles 1 and 2 wherever they are *)
-SwapTiles12(b) == [r \in Idx |-> [c \in Idx |-> IF b[r][c] = 1 THEN 2 ELSE IF b[r][c] = 2 THEN 1 ELSE b[r][c]]]
 
 (* C17 *) MultisetConserved == IsPerm(p) /\ \A a \in Actions : IsPerm(Move(p, a))
 (* C17 *) MoveIsTransposition ==          \* the move touches exactly the blank's cell and the neighbour in the action's direction
@@ -43,7 +43,7 @@ SwapTiles12(b) == [r \in Idx |-> [c \in Idx |-> IF b[r][c] = 1 THEN 2 ELSE IF b[
 (* C17 *) OppositeCancel ==
             \A a \in Actions : Legal(p, a) => (Legal(Move(p, a), Opp(a)) /\ Move(Move(p, a), Opp(a)) = p)
 (* C17 *) SolvedIffGoal == (Solved(p) <=> Correct(p) = N * N) /\ (Solved(p) <=> Flat(p) = [k \in 1..(N * N) |-> k % (N * N)])
-(* C17 *) ParityPreserved == \A a \in Actions : Solvable(Move(p, a)) <=> Solvable(p)
+(* C17 *) ParityPreserved == LET sp == Solvable(p) IN \A a \in Actions : Solvable(Move(p, a)) <=> sp
 (* C17 *) ParityInv == Solvable(p)                              \* SpecGoal only
 (* C17 *) CriteriaAgree == Solvable(p) <=> SolvableAlt(p)
 (* C17 *) SwapFlipsParity == Solvable(SwapTiles12(p)) # Solvable(p)
